@@ -5,7 +5,7 @@ import random
 from harness import core, docgen, inputs, trees, xdoc
 
 GEN = ['gen_tables', 'gen_regex', 'gen_config', 'gen_escapes', 'gen_blockstart']
-THEOREMS = ['C05_block_starts_are_the_source', 'C05_closed_blocks_independent', 'C05_stable_blocks_independent', 'C05_any_blocks_independent', 'C05_closed_last_independent', 'C05_closed_last_hypotheses',
+THEOREMS = ['C05_block_starts_are_the_source', 'C05_list_markers_are_the_source', 'C05_closed_blocks_independent', 'C05_stable_blocks_independent', 'C05_any_blocks_independent', 'C05_closed_last_independent', 'C05_closed_last_hypotheses',
             'C05_blank_lines_start_nothing', 'C05_line_numbers_shift', 'C05_blank_line_skipped', 'C05_bounded_pairs']
 TRUSTED = ['the parser model (tied by X-doc on A, B and A + blank + B)',
            'vm_compute for the bounded sweep of pairs']
